@@ -543,3 +543,131 @@ def rule_loop_rebind(repo, col):
 
 
 RULE_TEXT['EF-RETNEW'] = ' '.join(rule_loop_rebind.__doc__.split())
+
+
+def rule_empty_accumulation(repo, col):
+    """OR-EMPTYACC: a list accumulated by appends in a loop (it may stay
+    empty) is handed to the matrix converter only under an emptiness guard or
+    together with the shape: the converter cannot infer the other axis'
+    length from an empty list."""
+    rule = 'OR-EMPTYACC'
+    mod = repo.mod(TABLE)
+    cls = repo.cls(TABLE, 'Table')
+    n_sites = 0
+    for fn in cls.body:
+        if not isinstance(fn, ast.FunctionDef):
+            continue
+        q = 'Table.' + fn.name
+        assigns = local_assignments(fn)
+        par = _parents(fn)
+        acc = set()
+        for name, vals in assigns.items():
+            if any(isinstance(v, ast.List) and not v.elts for v, _ in vals
+                   if v is not None):
+                for n in body_walk(fn):
+                    if isinstance(n, ast.Call) and isinstance(
+                            n.func, ast.Attribute) and n.func.attr in (
+                            'append', 'extend') and isinstance(
+                            n.func.value, ast.Name) and \
+                            n.func.value.id == name:
+                        cur = n
+                        while id(cur) in par:
+                            cur = par[id(cur)]
+                            if isinstance(cur, (ast.For, ast.While)):
+                                acc.add(name)
+                                break
+        if not acc:
+            continue
+        for n in body_walk(fn):
+            if not (isinstance(n, ast.Call) and isinstance(
+                    n.func, ast.Attribute) and n.func.attr in (
+                    '_conv_to_self_type', '_to_sparse') and n.args and
+                    isinstance(n.args[0], ast.Name) and
+                    n.args[0].id in acc):
+                continue
+            name = n.args[0].id
+            n_sites += 1
+            if kwarg(n, 'shape') is not None:
+                col.ok(rule, TABLE, q, 'convert:%s' % name, n,
+                       'the shape accompanies the list')
+                continue
+            # guarded by a test on the list (enclosing If / IfExp) or by an
+            # earlier `if not L: raise/return`
+            guarded = False
+            cur = n
+            while id(cur) in par and not guarded:
+                p = par[id(cur)]
+                if isinstance(p, (ast.If, ast.IfExp)) and cur is not p.test \
+                        and any(isinstance(x, ast.Name) and x.id == name
+                                for x in ast.walk(p.test)):
+                    guarded = True
+                for fld in ('body', 'orelse'):
+                    blk = getattr(p, fld, None)
+                    if isinstance(blk, list) and cur in blk:
+                        for st in blk[:blk.index(cur)]:
+                            if isinstance(st, ast.If) and any(
+                                    isinstance(x, ast.Name) and x.id == name
+                                    for x in ast.walk(st.test)) and \
+                                    st.body and isinstance(
+                                        st.body[-1], (ast.Raise,
+                                                      ast.Return)):
+                                guarded = True
+                cur = p
+            col.check(guarded, rule, TABLE, q, 'convert:%s' % name, n,
+                      'an empty accumulation is handled separately',
+                      '`%s` may still be empty here (no group / vector '
+                      'passed the loop); the converter then returns a 0x0 '
+                      'matrix whatever the length of the other axis, and '
+                      'the table built from it has a shape that disagrees '
+                      'with its ids' % name)
+    col.ok(rule, TABLE, '<Table>', 'scan', None,
+           '%d converter calls on loop-accumulated lists' % n_sites)
+
+
+RULE_TEXT['OR-EMPTYACC'] = ' '.join(rule_empty_accumulation.__doc__.split())
+
+
+def rule_all_kinds_scanned(repo, col):
+    """OR-ALLKINDS: ErrorProfile.test goes on to the remaining error kinds
+    when the reaction of a firing kind produced nothing (ignored / only
+    reported); only a reaction result ends the scan."""
+    rule = 'OR-ALLKINDS'
+    ERR = 'biom/err.py'
+    fn = repo.func(ERR, 'ErrorProfile.test')
+    loops = [n for n in body_walk(fn) if isinstance(n, ast.For)]
+    if not loops:
+        col.unknown(rule, ERR, 'ErrorProfile.test', 'scan', fn,
+                    'loop over the error kinds not found')
+        return
+    loop = loops[0]
+    par = _parents(loop)
+    rets = [n for n in ast.walk(loop) if isinstance(n, ast.Return)]
+    if not rets:
+        col.ok(rule, ERR, 'ErrorProfile.test', 'scan', loop,
+               'the loop never returns early')
+        return
+    for r in rets:
+        v = r.value
+        direct = isinstance(v, ast.Call) and (call_name(v) or '').endswith(
+            '_handle_error')
+        guarded = False
+        if isinstance(v, ast.Name):
+            cur = r
+            while id(cur) in par:
+                p = par[id(cur)]
+                if isinstance(p, ast.If) and any(
+                        isinstance(x, ast.Name) and x.id == v.id
+                        for x in ast.walk(p.test)):
+                    guarded = True
+                    break
+                cur = p
+        col.check(guarded and not direct, rule, ERR, 'ErrorProfile.test',
+                  'scan', r, 'the scan ends only on a reaction result',
+                  'the scan over the error kinds returns at the first kind '
+                  'that fires even when its reaction is to ignore it: '
+                  '\'empty\' sorts first and is ignored by default, so a '
+                  'table with an empty axis is never checked for size '
+                  'mismatches or duplicate ids')
+
+
+RULE_TEXT['OR-ALLKINDS'] = ' '.join(rule_all_kinds_scanned.__doc__.split())
